@@ -108,7 +108,7 @@ fn judge_impl(case: &Case, strict: bool) -> Outcome {
                     refrule = Some(reference::load_rule_text(text, false).map_err(|_| ()));
                 }
                 if let Some(Ok(rr)) = &refrule {
-                    let ev = Evaluator::new(rr, EvalOpts { relaxed: true, shake: sw.shake, matrix: sw.matrix });
+                    let ev = Evaluator::new(rr, EvalOpts { relaxed: true, shake: sw.shake, matrix: sw.matrix, engine_exact: true });
                     let set = ev.eval(d);
                     if verdict_admissible(set, got) {
                         known = Some("K1K2".into());
@@ -228,6 +228,21 @@ pub fn run(tier: &str, seed: u64) -> i32 {
             |_, rep| rep.label("same_holder_nested_rule"),
         );
     }
+    // everything about one field (mixed modifiers, negations, quantifiers) x every value kind
+    gen::drive(
+        &mut report,
+        17,
+        n / 8,
+        gen::rule_same_field_focus,
+        |rule: &RuleSpec| {
+            if !rule.well_formed() {
+                return vec![];
+            }
+            vec![make_case(rule, gen::same_field_docs("f1"))]
+        },
+        judge,
+        |_, rep| rep.label("same_field_rule"),
+    );
     // wide or-groups (matrix guard at 256 entries, column keys beyond ASCII)
     gen::drive(
         &mut report,
